@@ -1,3 +1,4 @@
+import os
 #!/usr/bin/env python3
 """Regenerates MANIFEST.json from the table below (kept in one place so the
 claimed / not-applicable lists cannot drift apart)."""
@@ -87,8 +88,10 @@ CLAIMED["C05"] = ("other",
     "Static recovery of the header field-extraction tables from the IR (which header field is filled from which width at which offset, as linear forms over path length and data length) for the "
     "level 0/1/2/3 decoders, the ten extended-header decoders, the level-0 Unix/OS-9 areas and the chain walker, compared with the reference tables of the LHA header format held by the checker; "
     "the five endian decoders, the OS-9 permission mapping and the DOS date/time bit-fields are proven bit-exact by GF(2) bit-level evaluation; the extended-header registry is compared entry by "
-    "entry (types, decoders, min_len, reads within min_len). Claimed in part: decides the field wiring for all headers at once - the suite's sizes stay below 2^24, its dates below 2044 and it has "
-    "no 0x52/0x53 headers. Not decided: name normalisation (lower-casing), mktime's arithmetic, position of member data.",
+    "entry (types, decoders, min_len, reads within min_len) and the dispatcher is evaluated in the singleton domain for all 256 type bytes (which decoder receives the data, only with data_len >= "
+    "min_len); the all-caps folding of DOS-like names is shown to run only after both strings were scanned clean (flag-correlated path states on the inlined header unit). Claimed in part: decides "
+    "the field wiring for all headers at once - the suite's sizes stay below 2^24, its dates below 2044 and it has no 0x52/0x53 headers. Not decided: separator normalisation values (C11), "
+    "mktime's arithmetic, position of member data.",
     "Trusted: clang 14 front end; LLVM sroa/early-cse; irx; gf2.py, lin.py and props/c05.py; the reference tables (DESIGN Appendix B) as the specification of the format.",
     "static analysis: effect-signature recovery (stores to struct fields with linear offset forms) compared with reference tables + GF(2) bit-level evaluation on LLVM IR (custom checker)", "DESIGN.md §3 C05, Appendix B")
 
@@ -161,6 +164,17 @@ def main():
     checks = []
     for pid in sorted(CLAIMED):
         lvl, text, note, tech, ref = CLAIMED[pid]
+        # the check's own statement of what it decides (written into its evidence on every run) is the authoritative text
+        evp = os.path.join(os.path.dirname(os.path.dirname(os.path.abspath(__file__))), "evidence", pid + ".json")
+        if os.path.exists(evp):
+            try:
+                ex = json.load(open(evp))["coverage"].get("explanation")
+                if ex:
+                    text = ex
+            except Exception:
+                pass
+        if "§10" not in ref:
+            ref = ref + "; §10 (as built); RULES.md"
         checks.append({
             "property_id": pid,
             "quick_cmd": "./check %s --tier quick" % pid,
